@@ -3,7 +3,7 @@ CONSTANTS
   ClassSets <- CS
   LoadArgs <- LA
   DumpArgs <- DA
-  MaxOps = 5
+  MaxOps = 6
   MaxFns = 3
 INVARIANT Isolation
 PROPERTY BaseClassesUntouched
